@@ -490,6 +490,10 @@ var misuses = []misuse{
 	{"channel-push-closed", "ch := Channel::[Int](1)\nch.close\ndo\n  ch << 1\n  println(\"no-error\")\ncatch e\n  println(\"elk-error\")\nend\n", "elk-error"},
 	{"channel-pop-closed", "ch := Channel::[Int](1)\nch.close\ndo\n  x := ch.pop\n  println(\"no-error\")\ncatch e\n  println(\"elk-error\")\nend\n", "elk-error"},
 	{"channel-close-twice", "ch := Channel::[Int](1)\nch.close\ndo\n  ch.close\n  println(\"no-error\")\ncatch e\n  println(\"elk-error\")\nend\n", "elk-error"},
+	{"channel-close-via-writeonly-view-then-close", "ch := Channel::[Int](1)\nw := ch.writeonly\nw.close\ndo\n  ch.close\n  println(\"no-error\")\ncatch e\n  println(\"elk-error\")\nend\n", "elk-error"},
+	{"channel-close-then-close-via-writeonly-view", "ch := Channel::[Int](1)\nw := ch.writeonly\nch.close\ndo\n  w.close\n  println(\"no-error\")\ncatch e\n  println(\"elk-error\")\nend\n", "elk-error"},
+	{"channel-push-via-view-after-close", "ch := Channel::[Int](1)\nw := ch.writeonly\nch.close\ndo\n  w << 1\n  println(\"no-error\")\ncatch e\n  println(\"elk-error\")\nend\n", "elk-error"},
+	{"channel-pop-via-view-after-close", "ch := Channel::[Int](1)\nr := ch.readonly\nch.close\ndo\n  x := r.pop\n  println(\"no-error\")\ncatch e\n  println(\"elk-error\")\nend\n", "elk-error"},
 	{"channel-drain-after-close", "ch := Channel::[Int](2)\nch << 1\nch << 2\nch.close\nfor x in ch\n  println(x)\nend\nprintln(\"drained\")\n", "1\n2\ndrained"},
 }
 
@@ -500,7 +504,7 @@ func main() {
 		Prop:  "C25",
 		Level: "model_checking",
 		Rule: "15 multi-threaded Elk scenarios (producer/consumer at capacities 0,1,2; two producers; close racing push; select with ready/unready cases; mutex-protected read-modify-write; RWMutex writer vs readers; WaitGroup; Once; stray read_unlock/unlock racing a pending reader/writer; two concurrent unlocks of one lock) on the real VM under the controlled scheduler: every schedule with at most B preemptions (quick 2, thorough 3) over scheduling points at every channel/lock/wait-group/once/go/select operation and after every release, ready select cases enumerated instead of random; " +
-			"plus 10 single-threaded misuse sequences (unlock not held, negative wait group, push/pop/close on closed channel) that must raise Elk errors; oracle per scenario: delivery exactly once, per-producer FIFO, select takes only ready cases, mutual exclusion, run-once, no deadlock, no host panic/fatal; non-trivial = scenarios with at least 50 schedules",
+			"plus 14 single-threaded misuse sequences (unlock not held, negative wait group, push/pop/close on closed channel) that must raise Elk errors; oracle per scenario: delivery exactly once, per-producer FIFO, select takes only ready cases, mutual exclusion, run-once, no deadlock, no host panic/fatal; non-trivial = scenarios with at least 50 schedules",
 		Assume:      []string{"interpreter code between scheduling points runs atomically (critical sections contain an inner lock operation so that broken exclusion is observable)", "timers not modelled", "accesses racing between scheduling points are reported by the supplementary free-running pass under Go's race detector (case racepass/scenarios; the detector's send-racing-close report is an ordering diagnostic with a defined outcome and is ignored)"},
 		CaseTimeout: 15 * time.Minute,
 		Setup: func(c *engine.Ctx) {
